@@ -134,6 +134,8 @@ def run(ctx):
     sub += [b"\xff" * 16383, b"\xff" * 16384, b"\xff" * 20000, rng.randbytes(30000), b'"' * 40000, b"a" * 70000, b"\\" * 33000]
     # values whose bytes look like the layout of a statement (blank before ';', braces with blanks around them ...)
     sub += [b"a ;b", b" ;", b"; ", b" ; ", b"x { y", b"} ;", b"{ }", b"a  ;  b", b" ;;", b"set x \"y\" ;"]
+    # values with white space at their edges (a value is taken as it is, by the parser and by the builder)
+    sub += [b" lead", b"trail ", b"\ttab", b"tab\t", b" ", b"\r\n", b"x\r\n", b"\x0b\x0c"]
     for b in sub:
         o = core.outcome(c2profile.value_to_string, b)
         if o[0] == "ok":
@@ -143,8 +145,9 @@ def run(ctx):
         def built():
             p = c2profile.C2Profile()
             p.set_option("useragent", b)
-            g_ = c2profile.HttpGetBlock(uri=b)
+            g_ = c2profile.HttpGetBlock(uri=b, client=c2profile.HttpOptionsBlock(header=[(b, b)], parameter=[(b, b)]))
             p.set_config_block("http_get", g_)
+            p.set_config_block("http_config", c2profile.HttpConfigBlock(header=[(b, b)], headers=b))
             text = p.as_text()
             d = c2profile.C2Profile.from_text(text).as_dict()
             return d
@@ -152,7 +155,9 @@ def run(ctx):
         ctx.evaluations += 1
         if o[0] != "ok":
             viol("builder", "literal_rejected_or_injected", {"b": L(b)[:64], "got": str(o)[:200]})
-        elif set(o[1]) != {"useragent", "http-get.uri"} or [ref_unescape(x) for x in o[1]["useragent"]] != [b] or [ref_unescape(x) for x in o[1]["http-get.uri"]] != [b]:
+        elif (set(o[1]) != {"useragent", "http-get.uri", "http-get.client.header", "http-get.client.parameter", "http-config.header", "http-config.headers"}
+              or any([ref_unescape(x) for x in o[1][k_]] != [b] for k_ in ("useragent", "http-get.uri", "http-config.headers"))
+              or any([tuple(ref_unescape(y) for y in x) for x in o[1][k_]] != [(b, b)] for k_ in ("http-get.client.header", "http-get.client.parameter", "http-config.header"))):
             viol("builder", "value_changed_by_as_text", {"b": L(b)[:64], "got": str(o[1])[:300]})
     ctx.sample({"encode_event": {"b": ev[300]["b"], "lit": "".join(map(chr, ev[300]["lit"]))}})
     ctx.notes["rule"] = ("encode: all byte strings of length <= 1, length 2 (quick: syntax-relevant first/second bytes x all 256 + sample; thorough: all 65536), "
